@@ -200,14 +200,11 @@ class TelegramQueue:
                 break
 
             # limit rate to knx bus - defaults to 20 per second
-            if self.xknx.rate_limit and not isinstance(
+            rate_limited = bool(self.xknx.rate_limit) and not isinstance(
                 telegram.destination_address, InternalGroupAddress
-            ):
-                if self._rate_limiter is not None:
-                    await self._rate_limiter
-                self._rate_limiter = asyncio.create_task(
-                    asyncio.sleep(1 / self.xknx.rate_limit)
-                )
+            )
+            if rate_limited and self._rate_limiter is not None:
+                await self._rate_limiter
 
             try:
                 await self.process_telegram_outgoing(telegram)
@@ -222,6 +219,12 @@ class TelegramQueue:
                     "Unexpected error while processing outgoing telegram %s", telegram
                 )
             finally:
+                if rate_limited:
+                    # the pause starts when the send is over - a send that had to wait
+                    # (eg. for a management frame being confirmed) would use it up
+                    self._rate_limiter = asyncio.create_task(
+                        asyncio.sleep(1 / self.xknx.rate_limit)
+                    )
                 self.outgoing_queue.task_done()
                 self.xknx.telegrams.task_done()
 
